@@ -91,6 +91,10 @@ class SymReal:
     def __init__(self, z):
         self.z = z
 
+    def __bool__(self):
+        """Python truth value of a number: x != 0 (forks). Without this a proxy would count as true in `a or b` / `if a:`."""
+        return EX.branch(self.z != 0)
+
     # -- arithmetic
     def _bin(self, o, f, swap=False):
         if isinstance(o, onp.ndarray):
